@@ -21,6 +21,10 @@ CHECKS = {
   "Fault enumeration: for every (class, constructor parameter) pair of the public class list, every invalid-value kind of the catalogue (wrong dimension, negative, wrong types, wrong-class list members, values outside allowed / conditional lists, key changes invalidating a dependent value) is injected at construction, as a single assignment, inside grouped updates (both orders) and through the list mutators on a computed model holding all 18 classes; the call must raise and an identity snapshot of the whole model (same value objects, same links, same dependency edges) must be unchanged. Further runs place catalogue faults at random points of seeded edit histories and compare the next accepted edit with a rebuilt reference.",
   "Catalogue kinds are those named by the statement; None for a required quantity, hourly series of another length/dimension and wrong-class scalar links are injected with the weaker oracle 'if refused, nothing changed'. Book-keeping attributes (previous_*, all_changes, contextual containers) are excluded from 'unchanged'.",
   "deterministic simulation with enumerated invalid-input faults; identity snapshot oracle"),
+"C15": ("fault_enumeration", "3.C15",
+  "Fault enumeration over crash points: every update function that can raise (available RAM/compute per instance, on-premise and storage fixed instance counts, negative cumulative storage, plus the naturally failing sites found while building: zero request duration, empty device list) is reached through each input that can trigger it, with magnitudes derived from the live state so that the real code raises; failures are nested and interleaved with valid edits, then every failed input is re-assigned its previous value in a drawn order (retries allowed). After recovery all calculated values must equal a system rebuilt from the inputs, and so must every later edit (control-twin attribution: the same history without faults must itself agree with the reference).",
+  "Faults are natural (public API values), never synthetic exceptions; margins >= 5 % from every threshold; a violation is reported only if the fault-free replay of the same history is clean.",
+  "deterministic simulation with enumerated recomputation-failure faults and recovery; rebuilt reference + control twin"),
 "C16": ("exploration", "3.C16",
   "Seeded histories made only of link operations (every list mutator with present, absent, duplicate, no-op and out-of-range arguments, list and scalar link assignments, equal/self assignments, object creation+linking, self_delete of referenced and unreferenced objects, attempts to create a second System over shared objects) checked after every operation against a plain-Python link model: exception parity with the built-in list, return values, list contents, reverse look-ups (containers, jobs of servers/storages/services, steps/patterns/networks of jobs, patterns of journeys/networks/countries, systems of every object), attachment of the live list.",
   "Arguments are always modeling objects of the class the list accepts (wrong classes are C14's subject); sort/reverse and slice assignment/deletion are not generated (DESIGN 2.3); an exception thrown from inside an update_<attr> function ends the run without a verdict (recomputation faults are C15's subject).",
